@@ -3,6 +3,9 @@ import corelib as C
 from corelib import mc_consts
 
 
+REL = dict(ents=("e1", "e2"), kinds=("spawn", "relate", "unrelate", "despawn"), comps=("A",), ticks=2, idle=1, cframes=2)
+
+
 def main(tier, seed, replay):
     if replay:
         return C.replay_file("C01", replay)
@@ -17,9 +20,12 @@ def main(tier, seed, replay):
         k.validate_profile("split", 60)
         k.validate_profile("vis_black", 60)
         k.validate_profile("vis_white", 60)
-        k.validate_profile("rel", 200, monitors_only=True)
-        k.validate_profile("rel_kf", 150, monitors_only=True, known=("F17",))
-        k.validate_profile("kf_f17", 1, monitors_only=True, known=("F17",))
+        k.model_check("MC_Rel", mc_consts(ops=3, **REL), inv)
+        k.must_find("MC_Rel_F17", mc_consts(ops=5, impl="ImplF17", **REL), inv)
+        k.validate_profile("rel", 200)
+        k.validate_profile("rel_kf", 100, known=("F17",))
+        k.validate_profile("rel_vis", 100, known=("F17",))
+        k.validate_profile("kf_f17", 1, known=("F17",))
     else:
         k.model_check("MC_Mut", mc_consts(ops=4, ticks=3, idle=2, cframes=3), inv, timeout=3000)
         k.model_check("MC_Mut2", mc_consts(ents=("e1", "e2"), ops=3, ticks=3, kinds=("spawn", "mutate", "insert")), inv, timeout=3000)
@@ -40,9 +46,15 @@ def main(tier, seed, replay):
         k.validate_profile("timeout", 1000)
         k.validate_profile("vis_black", 1500)
         k.validate_profile("vis_white", 1500)
-        k.validate_profile("rel", 2500, monitors_only=True)
-        k.validate_profile("rel_kf", 1500, monitors_only=True, known=("F17",))
-        k.validate_profile("kf_f17", 1, monitors_only=True, known=("F17",))
+        k.model_check("MC_Rel", mc_consts(ops=5, **REL), inv, timeout=3000)
+        k.model_check("MC_Rel3", mc_consts(ops=4, **dict(REL, ents=("e1", "e2", "e3"))), inv, timeout=3000)
+        k.must_find("MC_Rel_F17", mc_consts(ops=5, impl="ImplF17", **REL), inv)
+        k.validate_profile("rel", 2500)
+        k.validate_profile("rel_split", 1000)
+        k.validate_profile("rel_kf", 1500, known=("F17",))
+        k.validate_profile("rel_vis", 1500, known=("F17",))
+        k.validate_profile("kf_f17", 1, known=("F17",))
+        k.replay_behaviours("TLC_walks_rel", mc_consts(ents=("e1", "e2", "e3"), clients=("c1", "c2"), comps=("A",), kinds=("spawn", "despawn", "relate", "unrelate", "mutate", "insert"), ops=8, ticks=6, idle=3, cframes=8), 300, depth=80)
         k.replay_behaviours("TLC_walks", mc_consts(ents=("e1", "e2"), clients=("c1", "c2"), kinds=("spawn", "despawn", "insert", "remove", "mutate", "mark", "unmark"), ops=8, ticks=6, idle=3, cframes=8), 400, depth=80)
     k.selftest(tr)
     return k.finish(assumptions=[
